@@ -163,13 +163,14 @@ class Index:
         else:
             match = None
             if until:
-                start = self.prefix + until + b"\x00"
+                start = self.prefix + until + b"\x01"
             else:
-                start = self.prefix + b"\xff"
-            cursor.set_range(start)
+                start = self.prefix + b"\xff\xff\xff\xff\x01"
+            if cursor.set_range(start):
+                prev()
             stop = self.prefix
             if since:
-                stop += since + b"\xff"
+                stop += since
             # print(f'{start} -> {stop}')
 
         def iterator(match):
